@@ -61,7 +61,24 @@ def LimitsOrdered(m):
     return all(implies(n.endswith('_limits'), getattr(m, n)[0] <= getattr(m, n)[1]) for n in m.parameters)
 
 
+def StructAgrees(m, sname, members, touched):
+    """(bounded only) after a whole-struct operation the cached struct and all cached members agree; after an operation on one
+    member the struct entry of THAT member equals the member (the cross-update is never suppressed).  A member left different by an
+    earlier *failed* whole-struct write stays different until the next whole-struct operation: observed on the pinned tree, outside
+    the histories C18 quantifies over (no failing driver methods), not demanded here."""
+    sv = getattr(m, sname)
+    keys = members if touched is None else {touched: members[touched]}
+    return all(sv[k] == getattr(m, attr) for k, attr in keys.items())
+
+
 CONTRACTS = [
+    # struct parameter and member parameters (bounded stand-in only): after every operation of a history that succeeds - also
+    # when earlier operations of the history failed - the struct and its members agree (each operation is one case; `op` performs
+    # it).  Right after a failed whole-struct access the members may be partially refreshed; that is not demanded to agree.
+    dict(key='StructParam.__set_name__', vc=False, file='frappy/extparams.py', func='StructParam.__set_name__', serves=['C18'],
+         requires=[],
+         ensures={'agree': 'StructAgrees(module, struct_name, member_attrs, touched)'},
+         raises={}),
     # the whole change path on real module classes of several inheritance layouts (bounded stand-in only): a value outside
     # the current limits never reaches the driver, whichever class of the hierarchy declares the limits or a check hook
     dict(key='Dispatcher.handle_change', vc=False, file='frappy/protocol/dispatcher.py', func='Dispatcher.handle_change',
